@@ -179,7 +179,26 @@ def gen_hand(repo):
     tr_fn = find_def(tree, 'Hand._translate')
     arg = tr_fn.args.args[0].arg
     clauses, dflt = [], None
-    for st in tr_fn.body:
+    body = [st for st in tr_fn.body if not (isinstance(st, ast.Expr) and isinstance(st.value, ast.Constant))]
+    # `if a: r = X elif b: r = Y else: r = Z; return r` is the same ladder as the early returns
+    if (len(body) == 2 and isinstance(body[0], ast.If) and isinstance(body[1], ast.Return)
+            and isinstance(body[1].value, ast.Name)):
+        var, node, flat = body[1].value.id, body[0], []
+        while True:
+            if not (len(node.body) == 1 and isinstance(node.body[0], ast.Assign) and len(node.body[0].targets) == 1
+                    and getattr(node.body[0].targets[0], 'id', '') == var):
+                raise Untranslatable('farm.Hand._translate: a branch does more than assign the result')
+            flat.append(ast.If(test=node.test, body=[ast.Return(value=node.body[0].value)], orelse=[]))
+            if len(node.orelse) == 1 and isinstance(node.orelse[0], ast.If):
+                node = node.orelse[0]
+                continue
+            if not (len(node.orelse) == 1 and isinstance(node.orelse[0], ast.Assign)
+                    and getattr(node.orelse[0].targets[0], 'id', '') == var):
+                raise Untranslatable('farm.Hand._translate: the final else does not assign the result')
+            flat.append(ast.Return(value=node.orelse[0].value))
+            break
+        body = flat
+    for st in body:
         if dflt is not None:
             raise Untranslatable('farm.Hand._translate: statements after the final return')
         if isinstance(st, ast.If) and not st.orelse and len(st.body) == 1 and isinstance(st.body[0], ast.Return):
